@@ -39,3 +39,7 @@ ASSUMPTIONS = list(ASSUMPTIONS) + ["module-level ALL-CAPS int constants >= 4096 
 PROBES = [p for p in PROBES if p != "tuning-constant-lowered"] + ["one-write-of-more-than-2^24-samples"]
 RULE = RULE + (" Round 9/10: 0.2% of fil histories (1% thorough) are ONE cwrite of more than 2^24 samples; the product's free-text header strings are 0-700 characters long in 40% of the "
                "scenarios (every header length up to ~1050 bytes); W4: in 5/8 of the runs one raw data write transfers at most 1-1000 bytes (never fires on the pinned tree: data go through tofile).")
+
+# dimensions added in seeded round 11
+PROBES = list(PROBES) + ["dat-and-fft-share-one-inf"]
+RULE = RULE + " Round 11: for .fft products a .dat companion may be written afterwards under the same basename (PRESTO layout: one .inf for both)."
